@@ -33,7 +33,7 @@ func (c c19cfg) String() string {
 }
 
 var c19forms = []string{"func(*VM)", "func(*VM) Value", "func(*VM, []Value)", "func(*VM, []Value) Value", "func(*VM, []Value) []Value", "func(*VM, []Value, ...Value) []Value"}
-var c19ctxs = []string{"statement", "operand of 1 + f()*2", "argument of another native", "multi-assign", "argument of a script function", "in a loop with live locals", "return f() inside a function literal nested in a function with another result count"}
+var c19ctxs = []string{"statement", "operand of 1 + f()*2", "argument of another native", "multi-assign", "argument of a script function", "in a loop with live locals", "return f() inside a function literal nested in a function with another result count", "var r0, r1 int = f() between live locals", "var r0, r1 = f() between live locals", "r0, r1 = f() assigning declared variables", "_, r1 := f() with blanks"}
 
 // c19exec runs one configuration; returns what the native saw, the script output, and the expectation for both.
 func c19exec(c c19cfg) (got, want string) {
@@ -163,6 +163,38 @@ func c19exec(c c19cfg) (got, want string) {
 		// the enclosing function (Main) has no results, the literal has `rets`
 		body = "\tg := func()" + sig + " {\n\t\treturn " + call + "\n\t}\n\t" + strings.Join(rs, ", ") + " := g()\n\tfmt.Println(" + strings.Join(rs, ", ") + ")\n"
 		wantOut = strings.Join(w, " ") + "\n"
+	case 7, 8, 9, 10:
+		var rs, lhs, w []string
+		for i := 0; i < rets; i++ {
+			rs = append(rs, fmt.Sprintf("r%d", i))
+			w = append(w, fmt.Sprint(101+i))
+		}
+		lhs = append(lhs, rs...)
+		var stmt string
+		switch c.Ctx {
+		case 7:
+			stmt = "\tvar " + strings.Join(rs, ", ") + " int = " + call + "\n"
+		case 8:
+			stmt = "\tvar " + strings.Join(rs, ", ") + " = " + call + "\n"
+		case 9:
+			stmt = "\tvar " + strings.Join(rs, ", ") + " int\n\t" + strings.Join(rs, ", ") + " = " + call + "\n"
+		case 10:
+			// every other result goes to the blank identifier (the last one is always kept)
+			for i := rets - 2; i >= 0; i -= 2 {
+				lhs[i] = "_"
+				w[i] = ""
+			}
+			stmt = "\t" + strings.Join(lhs, ", ") + " := " + call + "\n"
+		}
+		var shown, ww []string
+		for i := range lhs {
+			if lhs[i] != "_" {
+				shown = append(shown, lhs[i])
+				ww = append(ww, w[i])
+			}
+		}
+		body = "\tp := 7\n" + stmt + "\tq := 8\n\tfmt.Println(p, q, " + strings.Join(shown, ", ") + ")\n"
+		wantOut = "7 8 " + strings.Join(ww, " ") + "\n"
 	case 5:
 		// the two calls pass different integers (the int-typed/constant arguments get i*1000 added)
 		var largs []string
@@ -241,12 +273,12 @@ func c19configs() []c19cfg {
 					if form != 5 && tail > 0 {
 						continue
 					}
-					for ctx := 0; ctx < 7; ctx++ {
+					for ctx := 0; ctx < len(c19ctxs); ctx++ {
 						need := 0
 						switch ctx {
 						case 1, 2, 4, 5:
 							need = 1
-						case 3, 6:
+						case 3, 6, 7, 8, 9, 10:
 							need = 1
 						}
 						if rets < need {
@@ -704,7 +736,7 @@ func c19redefine(r *report.Run) {
 }
 
 func c19run(r *report.Run) {
-	r.Rule("(a) every constructor over its domain (all 256 values for the 8-bit types, boundary sets otherwise, the C13 string pool, slices of 0..4 elements, maps of 4 key kinds, Wrap/Error/Nil) read back through every matching accessor and through VM.Set/Get; (b) all six NewFunc forms x arity 0..6 x results 0..4 x variadic tail 0..3 x 6 call contexts x {constant, typed} arguments; (c) VM.Call/VM.Func on script functions with 0..6 parameters x 0..4 results x every requested count 0..declared+1 x {right, one fewer, one more} arguments; (d) string/error/script/run-time panics at nesting depth 1..3, also inside sort comparators; non-trivial = every configuration except arity 0 statement calls")
+	r.Rule("(a) every constructor over its domain (all 256 values for the 8-bit types, boundary sets otherwise, the C13 string pool, slices of 0..4 elements, maps of 4 key kinds, Wrap/Error/Nil) read back through every matching accessor and through VM.Set/Get; (b) all six NewFunc forms x arity 0..6 x results 0..4 x variadic tail 0..3 x 11 call contexts x {constant, typed} arguments; (c) VM.Call/VM.Func on script functions with 0..6 parameters x 0..4 results x every requested count 0..declared+1 x {right, one fewer, one more} arguments; (d) string/error/script/run-time panics at nesting depth 1..3, also inside sort comparators; non-trivial = every configuration except arity 0 statement calls")
 	r.Assume("expected values are what the generator planted", "form func(*VM) can only be registered as a 0->0 function from outside the package (the VM stack is unexported)")
 	c19roundTrips(r)
 	cfgs := c19configs()
